@@ -102,6 +102,7 @@ bool is_valid_b64(const u8_t* base64_in, int len) {
         else if (tail != 0)
             return false;
     }
-    return true;
+    // a 16-byte value encodes to 22 characters plus exactly two '='; fewer would decode to 17 or 18 bytes
+    return tail == 2;
 
 }
